@@ -1,4 +1,6 @@
-"""Registry: property id -> how to build its monitor binaries and how to summarise what they observed."""
+"""Registry: property id -> how to build its monitor binaries and how to summarise what they observed.
+Each property has a module tools/specs/<ID>.py defining SPEC = {"units": f(tier, seed) -> [Unit], "finish": {...}, "post": optional}."""
+import importlib.util
 import os
 
 import vlib
@@ -8,21 +10,17 @@ D = os.path.join(vlib.VERIF, "cpp", "drivers")
 
 
 def driver(name, src, kind="asan", shards=16, **kw):
+    """Single hand-written driver binary, sharded over the cores."""
     def f(tier, seed):
         return [Unit(name, src=os.path.join(D, src), kind=kind, shards=shards, **kw)]
     return f
 
 
 PROPS = {}
-
-PROPS["C17"] = {
-    "units": driver("c17_unescape", "c17_unescape.cpp"),
-    "finish": {
-        "rule": "cases: every code point 0..0x112000 (thorough 0..0x200000) plus 2^k+-2 and random values above U+10FFFF for utf8_append_utf32; "
-                "all 1-,2-,3-tuples of \\uXXXX escapes over 16 boundary units x separator placement plus seeded random tuples for unescape_j through the real JSON string grammar; "
-                "all hex strings up to 4 digits (22 digit characters) per target type plus seeded wider ones for unhex_string; all \\xHH, all \\uHHHH, boundary+random \\UHHHHHHHH, all C escapes through the example grammar. "
-                "A case is distinct by construction (enumeration without repetition); non-trivial = it reaches a helper with a value the oracle classifies (every case here does; random duplicates are not counted).",
-        "assumptions": ["oracle: cpp/oracles/utf_codec.hpp (table-driven, independent of PEGTL)", "the JSON and example grammars deliver the escapes to the actions (checked: result strings are compared)"],
-        "floors": {"append:*": 0x110000, "unescape_j:*": 1000, "unescape_u:4digits": 0x10000, "unescape_x": 512},
-    },
-}
+_sd = os.path.join(os.path.dirname(os.path.abspath(__file__)), "specs")
+for _f in sorted(os.listdir(_sd)):
+    if _f.endswith(".py") and _f[0] == "C":
+        _spec = importlib.util.spec_from_file_location("specs_" + _f[:-3], os.path.join(_sd, _f))
+        _m = importlib.util.module_from_spec(_spec)
+        _spec.loader.exec_module(_m)
+        PROPS[_f[:-3]] = _m.SPEC
